@@ -497,6 +497,7 @@ func (ex *Exec) builtinAppend(st *State, fr *Frame, cc *ssa.CallCommon, args []V
 	default:
 		fail("append of %T", args[1])
 	}
+	ex.emitObj(st, t.obj, false)
 	_ = tsnap
 	if isInt {
 		n := bvBin("bvadd", s.len, t.len)
@@ -565,6 +566,11 @@ func (ex *Exec) builtinAppend(st *State, fr *Frame, cc *ssa.CallCommon, args []V
 		ne := append([]Value(nil), cont.e...)
 		copy(ne[s.off.v+s.len.v:], add)
 		ex.emitObj(st, s.obj, true)
+		if st.traceOn && st.isShared(s.obj) {
+			for _, av := range add {
+				ex.publish(st, av)
+			}
+		}
 		st.heap[s.obj] = &Obj{typ: dobj.typ, val: setPath(dobj.val, s.path, ArrV{e: ne})}
 		fr.env[ins] = SliceV{obj: s.obj, path: s.path, off: s.off, len: u64(int64(newLen)), cap: s.cap}
 		return true
@@ -598,6 +604,7 @@ func (ex *Exec) builtinCopy(st *State, fr *Frame, args []Value, ins *ssa.Call) {
 	}
 	n := tIte(bvCmp("bvult", d.len, s.len), d.len, s.len)
 	if d.obj != 0 && s.obj != 0 {
+		ex.emitObj(st, s.obj, false)
 		dobj := st.heap[d.obj]
 		switch cont := getPath(dobj.val, d.path).(type) {
 		case BytesV:
@@ -612,6 +619,12 @@ func (ex *Exec) builtinCopy(st *State, fr *Frame, args []Value, ins *ssa.Call) {
 			src := st.container(s).(ArrV)
 			ne := append([]Value(nil), cont.e...)
 			copy(ne[d.off.v:d.off.v+n.v], src.e[s.off.v:s.off.v+n.v])
+			ex.emitObj(st, d.obj, true)
+			if st.traceOn && st.isShared(d.obj) {
+				for _, cv := range src.e[s.off.v : s.off.v+n.v] {
+					ex.publish(st, cv)
+				}
+			}
 			st.heap[d.obj] = &Obj{typ: dobj.typ, val: setPath(dobj.val, d.path, ArrV{e: ne})}
 		default:
 			fail("copy into %T", cont)
